@@ -638,6 +638,12 @@ SINGLES = [('maxsize', []), ('minsize', []), ('gen', []), ('gre', []), ('mincost
            ('minsqcost', []), ('lmb', []), ('lsb', []), ('mincostlsb', [])]
 
 
+def is_wide(I):
+    """the corner shapes with two-digit identifiers: quantifier-free obligations only (too many auxiliary variables
+    for the exists-forall forms)"""
+    return I.np > 4 or I.ns > 4
+
+
 def admissible(I, seq):
     """cut-offs inside the documented range (generous 1..max rank, greedy >= 1),
     criteria pairwise distinct"""
